@@ -228,6 +228,14 @@ impl<K: BoolKind> Hist<K> {
         Hist { mr, n: cfg.n0, pool: vec![], substs: (0..4).map(|_| None).collect(), checks, stats, epoch: 0, last: None, max_pool: 24, collected: Default::default(), skip_zbdd_reorder: false }
     }
 
+    /// history on an existing (empty) manager with `n` variables - used by the fuzz target, which
+    /// keeps one manager per process
+    pub fn with_manager(mr: MRef<K>, n: u32, checks: Checks) -> Self {
+        let mut stats = Stats::default();
+        stats.level_ne_var = K::order(&mr).iter().enumerate().any(|(l, &v)| l as u32 != v);
+        Hist { mr, n, pool: vec![], substs: (0..4).map(|_| None).collect(), checks, stats, epoch: 0, last: None, max_pool: 24, collected: Default::default(), skip_zbdd_reorder: false }
+    }
+
     fn ext(&self, t: &TT, n2: u32) -> TT {
         if K::KIND == BKind::Zbdd { t.extend_zero(n2) } else { t.extend_dc(n2) }
     }
